@@ -1,7 +1,7 @@
 /* C14 replay harness: runs add/remove/lookup histories through the real C functions.
  * Used (a) under valgrind against the normal scratch build (quick tier) and (b) linked against
  * the ASan+UBSan scratch build (thorough tier).  One answer line per operation:
- *   <rc> <N> <N_active> <N_allocated> <number of live particles not found under their own hash> <side-array allocation>
+ *   <rc> <N> <N_active> <N_allocated> <number of live particles not found under their own hash> <side-array allocation> <particles added so far from inside the collision callback>
  * Protocol (see rv/c14.py asan_text):
  *   new tree box boundary integrator | add id hash xhex yhex zhex | rm i ks | rmh h ks | get h
  *   sethash i h | setactive k | setnvar k | rmall | integrate nsteps | tupd | addvar |
@@ -61,6 +61,7 @@ int main(void){
             if (r) reb_simulation_free(r);
             r = reb_simulation_create();
             r->save_messages = 1;   /* keep stderr for the sanitizer */
+            n_frag = 0;
             if (box) reb_simulation_configure_box(r, 16., 1, 1, 1);
             if (bnd) r->boundary = REB_BOUNDARY_OPEN;
             if (tree==1) r->gravity = REB_GRAVITY_TREE;
@@ -220,7 +221,7 @@ int main(void){
             case REB_INTEGRATOR_BS: side = r->ri_bs.nbody_ode ? (long)(r->ri_bs.nbody_ode->length/6) : 0; break;
             default: break;
         }
-        printf("%d %u %d %u %d %ld\n", rc, r->N, r->N_active, r->N_allocated, bad, side);
+        printf("%d %u %d %u %d %ld %d\n", rc, r->N, r->N_active, r->N_allocated, bad, side, n_frag);
     }
     if (r) reb_simulation_free(r);
     return 0;
